@@ -125,6 +125,8 @@ def corpus(tier):
         out.append(("c10:" + "+".join(sub), c10.program(list(sub) + ["main"], sub)))
     edge = c12.edge_programs(tier)
     for name, src in (edge if tier == "thorough" else edge[::7]):
+        if name.startswith(("chain", "many-qubits")):
+            continue                      # seconds per execution: resource use, not shot isolation
         out.append(("c12:" + name, src))
     return out
 
@@ -141,6 +143,8 @@ def _corpus_one(item):
     for variant, extra in (("plain", {}), ("reanalyse-between", {"reanalyse_between": 1})):
         r = vdrv.run_job({"id": "s", "kind": "run", "opts": dict({"shots": _N, "gc": "own", "warn": 0, "want": "tracked,qasm"}, **extra), "blobs": {"src": src}})
         recs = r["records"]
+        if r.crash == "timeout":
+            return name, src, "timeout", 1 + _N      # reported as a cap, never as a violation
         if r.crash and len(recs) < _N:
             probs.append("%s: the interpreter died during shot %d of %d: %s %s" % (variant, len(recs), _N, r.crash, r["fd2"][:300]))
             continue
@@ -160,6 +164,9 @@ def main(tier):
     for name, src, probs, n in vdrv.pmap(_corpus_one, corpus(tier), chunksize=8):
         total += n
         if probs is None:
+            continue
+        if probs == "timeout":
+            ck.cap("corpus program %s: the %d-shot run exceeded the per-job time limit (not compared)" % (name, _N))
             continue
         ncorpus += 1
         for p in probs[:1]:
